@@ -1153,6 +1153,16 @@ def inject_docs(point):
     return INJECT_DOCS["str"]
 
 
+_HOOKED_DOC = {}
+
+
+def hooked_doc(E, pt, doc):
+    k = (pt, doc)
+    if k not in _HOOKED_DOC:
+        _HOOKED_DOC[k] = E.hooked(pt, doc)
+    return _HOOKED_DOC[k]
+
+
 def stream_inject(ctx, drv):
     """every primitive x every class x several documents that reach it: what the caller sees, against the model (`predict`) and against the
     envelope itself (a recorded kind never escapes)"""
@@ -1161,10 +1171,19 @@ def stream_inject(ctx, drv):
     classes = list(table.values()) + [E.HarnessError, E.HarnessBaseError]
     rec = recorded_kinds()
     lines, impl, cases = [], [], []
+    hooked = E.hooked_points()
+    ctx.extra["injection_points_hooked"] = hooked
     for pt in E.POINTS:
+        if pt not in hooked:
+            ctx.count(f"inject:unhooked:{pt}")
+            ctx.notes.append(f"injection point '{pt}' could not be hooked in this working tree (the code no longer reaches it through the patched "
+                             "name): not compared on this run")
+            continue
         for cls in classes:
             name = E.proto_name(cls)
             for doc in inject_docs(pt):
+                if not hooked_doc(E, pt, doc):
+                    continue
                 with E.inject(pt, cls):
                     v = E.verdict(doc)
                 case = {"op": "inject", "point": pt, "class": name, "markup": enc_markup(doc), "shown": describe(doc)}
